@@ -43,6 +43,7 @@ var (
 	listOnly   = flag.Bool("list", false, "list harnesses and exit")
 	cpuProf    = flag.String("cpuprofile", "", "write a CPU profile")
 	progress   = flag.Duration("progress", 0, "print exploration progress to stderr at this interval")
+	replayFile = flag.String("replayfile", "", "replay a counterexample file natively and report the outcome")
 )
 
 const modPath = "github.com/evolbioinfo/goalign"
@@ -230,7 +231,64 @@ func readKnown() []knownEntry {
 	return out
 }
 
+// replayOnly rebuilds the native replay binary of the harness named in the file and runs it.
+func replayOnly() int {
+	data, err := os.ReadFile(*replayFile)
+	if err != nil {
+		fmt.Fprintln(os.Stderr, err)
+		return 2
+	}
+	var rf struct {
+		Harness string `json:"harness"`
+		Kind    string `json:"kind"`
+		Label   string `json:"label"`
+	}
+	if err := json.Unmarshal(data, &rf); err != nil {
+		fmt.Fprintln(os.Stderr, err)
+		return 2
+	}
+	overlay, _, err := buildOverlay(false)
+	if err != nil {
+		fmt.Fprintln(os.Stderr, err)
+		return 2
+	}
+	dir := ""
+	usesSched := false
+	for virt, src := range overlay {
+		if strings.Contains(string(src), "func "+rf.Harness+"()") {
+			dir, _ = filepath.Rel(*repo, filepath.Dir(virt))
+			usesSched = strings.Contains(string(src), "race=1")
+		}
+	}
+	if dir == "" {
+		fmt.Fprintf(os.Stderr, "harness %s not found for property %s\n", rf.Harness, *prop)
+		return 2
+	}
+	rb := &replayBuilder{bins: map[string]string{}, errs: map[string]string{}, race: usesSched}
+	rb.build(map[string]bool{dir: true})
+	var knownKeys []string
+	for _, e := range readKnown() {
+		if e.kind == "known" && e.key != "" {
+			knownKeys = append(knownKeys, e.key)
+		}
+	}
+	res, err := rb.run(dir, *replayFile, knownKeys, 10*time.Second)
+	if err != nil {
+		fmt.Fprintln(os.Stderr, "replay:", err)
+		return 2
+	}
+	fmt.Printf("replay of %s (%s %q): native outcome=%s label=%q race=%v msg=%s\n", rf.Harness, rf.Kind, rf.Label, res.Outcome, res.Label, res.Race, firstLine(res.Msg))
+	if res.Outcome == "ok" && !res.Race {
+		return 0
+	}
+	fmt.Printf("VIOLATION property=%s replay=%s\n", *prop, *replayFile)
+	return 1
+}
+
 func run() int {
+	if *replayFile != "" {
+		return replayOnly()
+	}
 	t0 := time.Now()
 	if *prop == "" && !*listOnly {
 		fmt.Fprintln(os.Stderr, "usage: gosym -prop C06 [-tier quick|thorough]")
